@@ -15,6 +15,7 @@ import (
 	"github.com/IrineSistiana/mosproxy/internal/dnsmsg"
 	"github.com/IrineSistiana/mosproxy/internal/dnsutils"
 	"github.com/IrineSistiana/mosproxy/internal/pool"
+	"github.com/IrineSistiana/mosproxy/internal/verifhook"
 )
 
 var (
@@ -125,20 +126,33 @@ func (c *pipelineConn) readLoop() {
 			return
 		}
 
+		verifRid := int(r.Header.ID)
 		resChan := c.getQueueC(r.Header.ID)
 		if resChan != nil {
 			select {
 			case resChan <- r: // resChan has buffer
+				if verifhook.On {
+					verifhook.Ev("pc.send", c, verifRid, true)
+				}
 			default:
 				dnsmsg.ReleaseMsg(r)
+				if verifhook.On {
+					verifhook.Ev("pc.send", c, verifRid, false)
+				}
 			}
 		} else {
 			dnsmsg.ReleaseMsg(r)
+			if verifhook.On {
+				verifhook.Ev("pc.send", c, verifRid, false)
+			}
 		}
 	}
 }
 
 func (c *pipelineConn) write(m []byte, qid uint16) (err error) {
+	if verifhook.On {
+		verifhook.Ev("pc.write", c, int(qid), m)
+	}
 	isTCP := c.t.opts.IsTCP
 	if isTCP {
 		b, err := copyMsgWithLenHdr(m)
@@ -205,6 +219,9 @@ func (c *pipelineConn) closeWithErr(err error) {
 		return
 	}
 	c.closed = true
+	if verifhook.On {
+		verifhook.Ev("pc.close", c, err)
+	}
 	c.m.Unlock()
 
 	c.cancelCause(err)
@@ -215,6 +232,10 @@ func (c *pipelineConn) closeWithErr(err error) {
 func (c *pipelineConn) getQueueC(qid uint16) chan<- *dnsmsg.Msg {
 	c.m.RLock()
 	defer c.m.RUnlock()
+	if verifhook.On {
+		_, found := c.queue[uint32(qid)]
+		verifhook.Ev("pc.lookup", c, int(qid), found)
+	}
 	return c.queue[uint32(qid)]
 }
 
@@ -227,11 +248,17 @@ func (c *pipelineConn) addQueueC(respChan chan *dnsmsg.Msg) (uint16, error) {
 		c.reserved--
 	}
 	if c.nextQid > 65535 {
+		if verifhook.On {
+			verifhook.Ev("pc.eol", c)
+		}
 		return 0, errPipelineConnEoL
 	}
 	qid := uint16(c.nextQid)
 	c.nextQid++
 	c.queue[uint32(qid)] = respChan
+	if verifhook.On {
+		verifhook.Ev("pc.add", c, int(qid), c.nextQid, respChan)
+	}
 
 	return qid, nil
 }
@@ -240,6 +267,9 @@ func (c *pipelineConn) deleteQueueC(qid uint16) {
 	c.m.Lock()
 	delete(c.queue, uint32(qid))
 	eol := c.nextQid > 65535 && len(c.queue) == 0
+	if verifhook.On {
+		verifhook.Ev("pc.del", c, int(qid), eol, len(c.queue))
+	}
 	c.m.Unlock()
 
 	if eol {
